@@ -216,10 +216,12 @@ type Listener struct {
 	Listening  bool
 	Closed     bool
 	Accepts    int
+	ListenCalls int // how often the core asked this transport listener to start listening
 	ListenErr  error
 }
 
 func (l *Listener) Listen() error {
+	l.ListenCalls++
 	if l.Closed {
 		return mangos.ErrClosed
 	}
